@@ -6,12 +6,15 @@ import numpy as np
 from harness import comp_search as S
 from vlib import core
 
-PROPS = "Props/C18.v"
+PROPS = ["Props/C18.v", "Props/C18src.v"]
+TRANSLATORS = ["es"]
 THEOREMS = ["C18_es_returns_min", "C18_es_returns_min_number", "C18_es_result_is_survivor",
             "C18_es_all_filtered_is_failed_search", "C18_es_empty_only_if_all_filtered",
             "C18_es_later_empty_generation", "C18_es_depends_on_survivors_only", "C18_survivors_in_box",
             "C18_search_argmin", "C18_one_eval", "C18_mask_valid", "C18_mask_index_safe",
-            "C18_mask_fuel_suffices", "C18_hedge_distribution"]
+            "C18_mask_fuel_suffices", "C18_hedge_distribution",
+            # Props/C18src.v: Model/ESSelect.v IS the program regenerated from es_search.py / search_hedge.py (gen/Src_es.v)
+            "C18_selection_mask_is_source", "C18_generation_step_is_source", "C18_es_init_is_source", "C18_hedge_choice_is_source"]
 LEVEL = "proof"
 RULE = ("(i) mask: the real _get_selection_idx_mask_ for ALL 0<=mu,lamb<=120 (quick) / 300 (thorough); w0 from the "
         "function's own first statements (AST), premises of C18_mask_valid checked on every actual w0, model mask == real mask; "
@@ -46,6 +49,48 @@ def _viol(ctx, key, what, replay):
         ctx.violate(key, what, replay)
 
 
+# ------------------------------------------------------------------------------- the generated programs on the same cases
+SRC_STATE = {}
+
+
+def _run(part, name, ty, okf, cases, shard, timeout=900, metas=None):
+    """core.run_cases for the hand-written model; when gen/Src_es.v was generated, the SAME literals are also evaluated by the generated
+    program (S.SRC_OK[part]).  Records (evaluated, cases, bad_src, bad_model) in SRC_STATE[name]."""
+    if SRC_STATE.setdefault("_available", S.src_generated_ok()):
+        ok, bad, sbad, log = S.run_cases_both(name, ty, okf, S.SRC_OK[part], cases, shard=shard, timeout=timeout)
+        if ok:
+            SRC_STATE[name] = (True, len(cases), sbad, set(bad), part, metas)
+            return ok, bad, log
+    ok, bad, log = core.run_cases(name, S.REQUIRES, ty, okf, cases, shard=shard, timeout=timeout)
+    SRC_STATE[name] = (False, len(cases), [], set(bad), part, metas)
+    return ok, bad, log
+
+
+def source_tie(ctx, broken):
+    recs = {k: v for k, v in SRC_STATE.items() if not k.startswith("_")}
+    evaluated = bool(recs) and all(v[0] for v in recs.values())
+    n = sum(v[1] for v in recs.values())
+    sb = {k: v[2] for k, v in recs.items() if v[2]}
+    only_src = {k: [i for i in v[2] if i not in v[3]] for k, v in recs.items()}
+    only_src = {k: v for k, v in only_src.items() if v}
+    detail = (f"{sum(len(v) for v in sb.values())} of {n} cases differ between gen/Src_es.v (src_mask / src_gen + src_ret / src_hedge, evaluated by vm_compute) "
+              f"and the real code {({k: len(v) for k, v in sb.items()} or '')}"
+              if evaluated else "NOT EVALUATED: gen/Src_es.v was not generated or does not build (source outside the translator's whitelist)")
+    ctx.coverage["source_tie"] = dict(evaluated=evaluated, cases=n, differing={k: len(v) for k, v in sb.items()},
+                                      per_part={k: v[1] for k, v in recs.items()})
+    if not ctx.oblige("correspondence:es_source", "correspondence", evaluated and not sb, detail):
+        if not evaluated:
+            broken.append(("correspondence:es_source", "the programs regenerated from es_search.py / search_hedge.py could not be evaluated: " + detail))
+        elif only_src:
+            broken.append(("correspondence:es_source", f"TRANSLATOR fault: the generated program differs from the real code on cases {({k: v[:3] for k, v in only_src.items()})} "
+                           "on which the hand-written model agrees with it"))
+        else:
+            broken.append(("correspondence:es_source", "generated program and hand-written model both differ from the real code on the same cases"))
+    elif any(v[3] for v in recs.values()):
+        ctx.notes.append("the program regenerated from the source AGREES with the real code where the hand-written model differs: "
+                         "the source has changed, Model/ESSelect.v no longer describes it")
+
+
 # ------------------------------------------------------------------------------- (i)
 def part_mask(ctx, broken):
     nmax = 120 if ctx.quick else 300
@@ -60,10 +105,10 @@ def part_mask(ctx, broken):
         key = "mask-premise" if msg.startswith("w0") or msg.startswith("sum") else "mask-invalid"
         _viol(ctx, key, f"_get_selection_idx_mask_({mu}, {lamb}): {msg}", dict(kind="mask", mu=mu, lamb=lamb))
     ctx.oblige("monitor:mask", "monitor", not problems, f"{len(problems)} (mu, lamb) pairs violate the mask facts")
-    okc, bad, log = core.run_cases("C18mask", S.REQUIRES, S.MASK_TY, S.MASK_OK, cases, shard=max(200, (len(cases) + 11) // 12), timeout=1500)
+    okc, bad, log = _run("mask", "C18mask", S.MASK_TY, S.MASK_OK, cases, shard=max(200, (len(cases) + 11) // 12), timeout=1500)
     rcases, rrecs = S.mask_random(ctx.rng, 1500 if ctx.quick else 10000)
     ctx.count(len(rcases), sum(1 for r in rrecs if isinstance(r[2], str) or r[2] != list(range(len(r[2])))))
-    okr, badr, logr = core.run_cases("C18maskr", S.REQUIRES, S.MASKR_TY, S.MASKR_OK, rcases, shard=500)
+    okr, badr, logr = _run("maskr", "C18maskr", S.MASKR_TY, S.MASKR_OK, rcases, shard=500)
     good = ctx.oblige("correspondence:mask", "correspondence", okc and okr and not bad and not badr,
                       f"{len(bad)} of {len(cases)} swept and {len(badr)} of {len(rcases)} synthetic cases differ; " + (log + logr)[-400:])
     if not good:
@@ -176,7 +221,7 @@ def part_runs(ctx, broken):
                       f"{json.dumps(later)}; box not on the mesh: {json.dumps(offmesh)}"):
         broken.append(("coverage:later_empty_generation", f"too few ES calls with a later generation without survivors ({later}) "
                        f"or with hard bounds off the search mesh ({offmesh})"))
-    ok1, bad1, log1 = core.run_cases("C18es", S.REQUIRES, S.ES_TY, S.ES_OK, es_cases, shard=max(1, (len(es_cases) + 11) // 12))
+    ok1, bad1, log1 = _run("es", "C18es", S.ES_TY, S.ES_OK, es_cases, shard=max(1, (len(es_cases) + 11) // 12))
     ctx.coverage["traces_validated_against_impl"] = len(es_cases) - len(bad1)
     if not ctx.oblige("correspondence:es_loop", "correspondence", ok1 and not bad1, f"{len(bad1)} of {len(es_cases)} ES calls differ; " + log1[-400:]):
         if bad1:
@@ -223,7 +268,7 @@ def part_hedge(ctx, broken):
     ctx.sample(dict(part="hedge", **{k: recs[len(recs) // 3][k] for k in ("g", "gamma", "rand", "prob", "chosen")}))
     ctx.oblige("monitor:hedge", "monitor", bad_mon == 0, f"{bad_mon} of {len(recs)} hedge calls violate the distribution facts")
     cases = [S.hedge_case(r) for r in recs if not any(np.isnan(r["prob"])) and not any(np.isnan(r["e"]))]
-    ok, bad, log = core.run_cases("C18hedge", S.REQUIRES, S.HEDGE_TY, S.HEDGE_OK, cases, shard=max(100, (len(cases) + 11) // 12))
+    ok, bad, log = _run("hedge", "C18hedge", S.HEDGE_TY, S.HEDGE_OK, cases, shard=max(100, (len(cases) + 11) // 12))
     if not ctx.oblige("correspondence:hedge", "correspondence", ok and not bad and len(cases) == len(recs),
                       f"{len(bad)} of {len(cases)} hedge calls differ ({len(recs) - len(cases)} NaN); " + log[-400:]):
         if bad:
@@ -234,9 +279,11 @@ def part_hedge(ctx, broken):
 
 
 def tie(ctx, broken):
+    SRC_STATE.clear()
     part_mask(ctx, broken)
     part_runs(ctx, broken)
     part_hedge(ctx, broken)
+    source_tie(ctx, broken)
 
 
 def search(ctx, broken):
